@@ -6,12 +6,76 @@ import DswModel.Tie.OpDna
 `Dsw.Gen.set_vt` (generated from the Python source on every run) computes the model function
 `Dsw.setVt` for every string (a character outside `ACGT` is `ValueError` on both sides) and every
 check length `n ≥ 1`.
+
+Proof plan.  `set_vt` is straight-line code.  `array([nucleotides.index(c) for c in dna])` is
+`nucValues` (`DnaTie.mapM_index`); `values[1:] - values[:-1] > 0` is the array of bools `ascBools`;
+the sum of its `where` indices is `ascentSum` (`npSum_ascBools`, induction on the values with the
+index offset generalised); the rest is integer arithmetic on naturals and the tie of
+`number_to_dna` (`tie_number_to_dna_int`, whose fuel is `log2 value + 2 ≤ 2 * n`).
 -/
 namespace Dsw.Tie
 open Dsw Dsw.Py
 
+namespace VtTie
+
+/-- `values[1:] - values[:-1] > 0` as an array of bools. -/
+def ascBools (vals : List Nat) : List PV :=
+  (List.zipWith (fun (a b : Nat) => (a : Int) - (b : Int)) vals.tail vals.dropLast).map
+    fun x => PV.bool (decide (0 < x))
+
+theorem ascBools_cons_cons (x y : Nat) (r : List Nat) :
+    ascBools (x :: y :: r) = .bool (decide (x < y)) :: ascBools (y :: r) := by
+  have h : decide ((0 : Int) < (y : Int) - (x : Int)) = decide (x < y) := decide_eq_decide.mpr (by omega)
+  simp only [ascBools, List.tail_cons, List.dropLast_cons_cons, List.zipWith_cons_cons, List.map_cons, h]
+
+/-- `sum(where(values[1:] - values[:-1] > 0)[0])`, the positions counted from `i`. -/
+theorem npSum_ascBools (vals : List Nat) (i : Nat) :
+    npSum (.arr (trueIdx (ascBools vals) i)) = .ok (.int ((ascentSum vals i : Nat) : Int)) := by
+  induction vals generalizing i with
+  | nil => rfl
+  | cons x t ih =>
+    cases t with
+    | nil => rfl
+    | cons y r =>
+      rw [ascBools_cons_cons, trueIdx_cons_bool, ascentSum]
+      by_cases hxy : x < y
+      · simp only [hxy, decide_true, if_true]
+        rw [npSum_arr_cons_int _ (ih (i + 1))]; push_cast; rfl
+      · simp only [hxy, decide_false, Bool.false_eq_true, if_false, Nat.zero_add]
+        exact ih (i + 1)
+
+/-- a value below `4 ^ m` fits the fuel of `number_to_dna`. -/
+theorem log2_lt_of_lt_four_pow {v m : Nat} (h : v < 4 ^ m) : Nat.log2 v + 2 ≤ 2 * m + 2 := by
+  by_cases hv : v = 0
+  · subst hv; simp [Nat.log2_zero]
+  · have h4 : 4 ^ m = 2 ^ (2 * m) := by rw [Nat.pow_mul]
+    have := (Nat.log2_lt hv).mpr (h4 ▸ h)
+    omega
+
+end VtTie
+
+open VtTie DnaTie
+
 theorem tie_set_vt (s : List Char) (n fuel : Nat) (hn : 1 ≤ n) (hf : 2 * n + 2 ≤ fuel) :
     Gen.set_vt fuel (cstr s) (.int (n : Int)) = (setVt s n).map cstr := by
-  sorry
+  simp only [Gen.set_vt, Gen.set_vt.body, cstr, pyMap_str, mapM_index, setVt]
+  cases hnv : nucValues s with
+  | error err => rfl
+  | ok vals =>
+    have hlen : vals.tail.length = vals.dropLast.length := by simp
+    simp only [R_map_ok, bnd_ok, npArray_list_nats, pySliceV_arr_from_one, pySliceV_arr_to_neg_one,
+      ← List.map_tail, ← List.map_dropLast, npSub_nats_nats hlen, npCmp_pyGt_ints_int, npWhere_arr,
+      pyIndex_tup_cons_zero]
+    have hasc := npSum_ascBools vals 0
+    simp only [ascBools] at hasc
+    have hpos : 0 < 4 ^ (n - 1) := Nat.pow_pos (by omega)
+    have hfuel : Nat.log2 (ascentSum vals 0 % 4 ^ (n - 1)) + 2 ≤ fuel := by
+      have := log2_lt_of_lt_four_pow (Nat.mod_lt (ascentSum vals 0) hpos)
+      omega
+    have hflag : vals.foldl (· + ·) 0 % 4 < 4 := Nat.mod_lt _ (by omega)
+    simp only [hasc, bnd_ok, pyInt_int, len_nuc, npSub_nat_one hn, pyPow_four_nat,
+      pyMod_nat (a := ascentSum vals 0) (b := 4 ^ (n - 1)) (by omega), npSum_nats, pyMod_nat_four,
+      pyIndex_ACGT hflag, tie_number_to_dna_int _ _ fuel hfuel, cstr, npAdd_str, callResult_ret,
+      List.singleton_append]
 
 end Dsw.Tie
